@@ -248,7 +248,7 @@ func Spec() *core.Spec {
 			"9 object types in Get/Export responses and Register/Import requests plus unknown and mismatching object type codes; 50 standard attribute names x 10 TTLV value types; custom/arbitrary attribute names x 10 types; payload types registered for a vendor operation at run time, after the first decode, in a fresh process. " +
 			"Inputs are built by the independent generator (binary) or from the generic tree (XML/JSON). 8 goroutines decoding goroutine-specific custom attributes at once; a vendor operation NAME registered at run time followed by all built-in operations written by name by independent writers; distinct = distinct (class, operation/object/attribute, direction, encoding, value type) combinations",
 		Assumptions: []string{"operation/object/attribute type tables in harness/gen/ops.go are written from the KMIP 1.4 specification"},
-		Required:    []string{"reused_targets", "typed_responses.status2", "typed_responses.status3", "typed_payloads", "opaque_payloads", "objects_typed", "objects_unknown_rejected", "attrs_typed", "attrs_wrong_type_rejected", "attrs_opaque", "late_registration_decodes", "late_registration_named_decodes", "late_registration_object_decodes", "concurrent_opaque_decodes"},
+		Required:    []string{"reused_targets", "typed_responses.status2", "typed_responses.status3", "typed_payloads", "opaque_payloads", "objects_typed", "objects_unknown_rejected", "attrs_typed", "attrs_wrong_type_rejected", "attrs_opaque", "late_registration_decodes", "late_registration_named_decodes", "late_registration_object_decodes", "re_registration_decodes", "concurrent_opaque_decodes"},
 		Families: []core.Family{
 			{Name: "ops-typed", N: nOf(27*2*3*5*3, 27*2*3*5*600), Run: func(c *core.Ctx, r *core.Rand, i int) {
 				op := &gen.Ops[i%27]
@@ -891,8 +891,52 @@ func lateRegistration(c *core.Ctx, r *core.Rand, i int) {
 			}
 		}
 	}
+	// 5. the application registers the vendor operation again, with its second-generation types: the batch items
+	// of that operation decode to what is registered NOW
+	kmip.RegisterOperationPayload[vendorRequestV2, vendorResponseV2](vendorOp)
+	for _, enc := range encs {
+		for _, resp := range []bool{false, true} {
+			pl := st(0, text(kmip.TagUniqueIdentifier, "again"))
+			var t wire.Node
+			var want reflect.Type
+			if resp {
+				t, want = respTree(4, int64(vendorOp), pl), reflect.TypeFor[*vendorResponseV2]()
+			} else {
+				t, want = reqTree(4, int64(vendorOp), pl), reflect.TypeFor[*vendorRequestV2]()
+			}
+			in := Input(enc, t)
+			label := fmt.Sprintf("vendor operation %s after its payload types were registered a second time", dirName(resp))
+			c.Count("re_registration_decodes", 1)
+			d, derr, ok := decodeMsg(c, enc, in, resp, label)
+			if !ok {
+				continue
+			}
+			sig := fmt.Sprintf("C06:re-registration:%s:%s", dirName(resp), enc)
+			if derr != nil {
+				c.Violation(sig+":decode-error", fmt.Sprintf("%s does not decode from %s: %v", label, enc, derr), map[string]any{"input": show(enc, in)})
+				continue
+			}
+			if reflect.TypeOf(d.payload) != want {
+				c.Violation(sig+":wrong-type", fmt.Sprintf("%s decodes to %T, the type registered for the operation is %s", label, d.payload, want), map[string]any{"input": show(enc, in)})
+				continue
+			}
+			preserved(c, sig+":content", enc, in, d.msg, t, label)
+		}
+	}
 	lateObjects(c, g)
 }
+
+type vendorRequestV2 struct {
+	UniqueIdentifier string
+}
+
+func (*vendorRequestV2) Operation() kmip.Operation { return vendorOp }
+
+type vendorResponseV2 struct {
+	UniqueIdentifier string
+}
+
+func (*vendorResponseV2) Operation() kmip.Operation { return vendorOp }
 
 func objectsCase(c *core.Ctx, r *core.Rand, i int, mode func(*core.Rand, int) *gen.G) {
 	g := mode(r, 4)
